@@ -1,4 +1,4 @@
-(* placeholder until the C03 theorems are in: one trivial obligation so that the plumbing can be exercised *)
+(* C03 — theorems in progress; this file is replaced as they are proved *)
 From AB Require Import Check.WorldCheck.
 Theorem c03_placeholder : True. Proof. exact I. Qed.
 Print Assumptions c03_placeholder.
